@@ -34,22 +34,24 @@
 (***************************************************************************)
 EXTENDS DynScan, HashWalk, FiniteSets, TLC, Json, CSV, IOUtils
 INSTANCE RegistryData
+\* the registry tables the verdicts consult are bound once, into a state variable (`reg`): TLC re-evaluates the
+\* vendored registry record at every use of a definition that mentions it
+RegTables == [by |-> [k \in DtKeys |-> RegByCode[k]], known |-> DOMAIN Reg \cup AllSolarisNames]
 
 Log == ndJsonDeserialize(IOEnv.TRACE)
 
-VARIABLES l, voc, fl, scans, oks, oka, okc, bad, ill, unk, undet
-vars == <<l, voc, fl, scans, oks, oka, okc, bad, ill, unk, undet>>
+VARIABLES reg, l, voc, fl, scans, oks, oka, okc, bad, ill, unk, undet
+vars == <<reg, l, voc, fl, scans, oks, oka, okc, bad, ill, unk, undet>>
 
-Init == l = 1 /\ voc = {} /\ fl = 0 /\ scans = <<>> /\ oks = 0 /\ oka = 0 /\ okc = 0 /\ bad = {} /\ ill = {} /\ unk = 0 /\ undet = {}
+Init == reg = RegTables /\ l = 1 /\ voc = {} /\ fl = 0 /\ scans = <<>> /\ oks = 0 /\ oka = 0 /\ okc = 0 /\ bad = {} /\ ill = {} /\ unk = 0 /\ undet = {}
 
 Elems(s) == {s[i] : i \in 1..Len(s)}
-KnownNames == DOMAIN Reg \cup AllSolarisNames
 
 \* verdict on one reported tag against the decoded entry e = <<tag digits, value digits>>: "ok", "unk", or what is wrong
 TagVerdict(F, e, r) ==
-  LET names == DtNamesOf(RegByCode, F.machine, F.osabi, e[1]) IN
+  LET names == DtNamesOf(reg.by, F.machine, F.osabi, e[1]) IN
   IF r.v # e[2] THEN "d_val"
-  ELSE IF r.nm # "" THEN (IF r.nm \in names THEN "ok" ELSE IF r.nm \in KnownNames THEN "d_tag.name" ELSE "unk")
+  ELSE IF r.nm # "" THEN (IF r.nm \in names THEN "ok" ELSE IF r.nm \in reg.known THEN "d_tag.name" ELSE "unk")
   ELSE IF names \cap voc # {} THEN "d_tag.unnamed"
   ELSE IF r.c = e[1] THEN "ok" ELSE "d_tag.code"
 
@@ -95,7 +97,7 @@ CntStep(e) ==
 
 Step ==
   /\ l <= Len(Log)
-  /\ l' = l + 1
+  /\ l' = l + 1 /\ UNCHANGED reg
   /\ LET e == Log[l] IN
      CASE e.k = "voc" -> voc' = Elems(e.voc) /\ UNCHANGED <<fl, scans, oks, oka, okc, bad, ill, unk, undet>>
        [] e.k = "file" -> fl' = l /\ scans' = <<>> /\ UNCHANGED <<voc, oks, oka, okc, bad, ill, unk, undet>>
